@@ -153,9 +153,15 @@ def check(prop: str, tier: str, seed: int, nshards: int = 16, scale: float = 1.0
                 d["slowest_s"] = v["slowest_s"]
                 if "slowest_case" in v:
                     d["slowest_case"] = v["slowest_case"]
-            for key in ("timeouts",):
+            for key in ("timeouts", "fuzz_execs", "fuzz_raw_findings"):
                 if key in v:
                     d[key] = d.get(key, 0) + v[key]
+            if "fuzz" in v:  # a campaign that was skipped or cut short says so
+                d.setdefault("fuzz_notes", [])
+                if v["fuzz"] not in d["fuzz_notes"]:
+                    d["fuzz_notes"].append(v["fuzz"])
+            if "fuzz_corpus" in v:
+                d["fuzz_corpora"] = sorted(set(d.get("fuzz_corpora", [])) | {v["fuzz_corpus"]})
             if v.get("aborted_inconclusive"):
                 d["aborted_inconclusive"] = d.get("aborted_inconclusive", 0) + 1
         for k, v in (r.get("extra") or {}).items():
@@ -233,9 +239,12 @@ def check(prop: str, tier: str, seed: int, nshards: int = 16, scale: float = 1.0
         "wall_s": round(wall, 2),
         "violations": len(by_sig),
     }
-    os.makedirs(os.path.join(VERIF, "evidence"), exist_ok=True)
+    # Runs against a scratch copy of the repository (tools/seeded.py, tools/mut.py) set VERIF_EVIDENCE_DIR so that they do not replace the
+    # evidence of the tree the checks are registered for.
+    evdir = os.environ.get("VERIF_EVIDENCE_DIR") or os.path.join(VERIF, "evidence")
+    os.makedirs(evdir, exist_ok=True)
     if evaluations > 0 and not only_part:
-        with open(os.path.join(VERIF, "evidence", "%s.json" % prop), "w") as f:
+        with open(os.path.join(evdir, "%s.json" % prop), "w") as f:
             json.dump(ev, f, indent=1, default=str)
 
     for ln in lines:
